@@ -14,9 +14,10 @@ while args and args[0].startswith('-'):
     if args[0] == '-p': props = args[1]; args = args[2:]
     elif args[0] == '-t': tier = args[1]; args = args[2:]
     else: break
-seeds = args or sorted(os.listdir('/verif/seeded'))
+SEEDDIR = os.environ.get('SEEDDIR', '/verif/seeded')
+seeds = args or sorted(os.listdir(SEEDDIR))
 def one(sid):
-    d = os.path.join('/verif/seeded', sid)
+    d = os.path.join(SEEDDIR, sid)
     if not os.path.exists(os.path.join(d, 'patch.diff')): return sid, None, ''
     tmp = tempfile.mkdtemp(prefix='ms-', dir='/tmp')
     try:
@@ -39,7 +40,7 @@ with cf.ThreadPoolExecutor(8) as ex:
 caught = 0
 for sid, hits, detail in res:
     meta = {}
-    try: meta = json.load(open(f'/verif/seeded/{sid}/meta.json'))
+    try: meta = json.load(open(os.path.join(SEEDDIR, sid, 'meta.json')))
     except Exception: pass
     own = meta.get('property', '?')
     if hits is None: print(f'{sid:10s} ERROR {detail}'); continue
